@@ -226,32 +226,8 @@ impl<'a> ConstraintValidator<'a> {
             return OwnedValue::Date(days);
         }
 
-        let parts: SmallVec<[&str; 4]> = s.split('-').collect();
-        if parts.len() != 3 {
-            return OwnedValue::Null;
-        }
-        let year: i32 = match parts[0].parse() {
-            Ok(y) => y,
-            Err(_) => return OwnedValue::Null,
-        };
-        let month: u32 = match parts[1].parse() {
-            Ok(m) => m,
-            Err(_) => return OwnedValue::Null,
-        };
-        let day: u32 = match parts[2].parse() {
-            Ok(d) => d,
-            Err(_) => return OwnedValue::Null,
-        };
-        let days = Self::days_from_ymd(year, month, day);
-        OwnedValue::Date(days)
-    }
-
-    fn days_from_ymd(year: i32, month: u32, day: u32) -> i32 {
-        let a = (14 - month as i32) / 12;
-        let y = year + 4800 - a;
-        let m = month as i32 + 12 * a - 3;
-        let jdn = day as i32 + (153 * m + 2) / 5 + 365 * y + y / 4 - y / 100 + y / 400 - 32045;
-        jdn - 2440588
+        // same validation as DATE literals (month/day ranges, leap years)
+        crate::parsing::parse_date(s).unwrap_or(OwnedValue::Null)
     }
 
     fn parse_time_default(s: &str) -> OwnedValue {
@@ -267,34 +243,8 @@ impl<'a> ConstraintValidator<'a> {
             return OwnedValue::Time(micros);
         }
 
-        let parts: SmallVec<[&str; 4]> = s.split(':').collect();
-        if parts.len() < 2 {
-            return OwnedValue::Null;
-        }
-        let hour: i64 = match parts[0].parse() {
-            Ok(h) => h,
-            Err(_) => return OwnedValue::Null,
-        };
-        let minute: i64 = match parts[1].parse() {
-            Ok(m) => m,
-            Err(_) => return OwnedValue::Null,
-        };
-        let (second, micros_frac) = if parts.len() > 2 {
-            let sec_parts: SmallVec<[&str; 2]> = parts[2].split('.').collect();
-            let sec: i64 = sec_parts[0].parse().unwrap_or(0);
-            let frac = if sec_parts.len() > 1 {
-                let frac_str = sec_parts[1];
-                let padded = format!("{:0<6}", frac_str);
-                padded[..6].parse::<i64>().unwrap_or(0)
-            } else {
-                0
-            };
-            (sec, frac)
-        } else {
-            (0, 0)
-        };
-        let micros = hour * 3_600_000_000 + minute * 60_000_000 + second * 1_000_000 + micros_frac;
-        OwnedValue::Time(micros)
+        // same validation as TIME literals (field ranges, numeric fraction)
+        crate::parsing::parse_time(s).unwrap_or(OwnedValue::Null)
     }
 
     fn parse_timestamp_default(s: &str) -> OwnedValue {
@@ -316,25 +266,14 @@ impl<'a> ConstraintValidator<'a> {
             return OwnedValue::Timestamp(now);
         }
 
-        let datetime_parts: SmallVec<[&str; 2]> = s.split(&[' ', 'T'][..]).collect();
-        if datetime_parts.is_empty() {
-            return OwnedValue::Null;
+        // same validation as TIMESTAMP literals; a bare date means midnight
+        match crate::parsing::parse_timestamp(s) {
+            Ok(ts) => ts,
+            Err(_) => match crate::parsing::parse_date(s) {
+                Ok(OwnedValue::Date(days)) => OwnedValue::Timestamp((days as i64) * 86_400_000_000),
+                _ => OwnedValue::Null,
+            },
         }
-        let date_val = Self::parse_date_default(datetime_parts[0]);
-        let days = match date_val {
-            OwnedValue::Date(d) => d,
-            _ => return OwnedValue::Null,
-        };
-        let time_micros = if datetime_parts.len() > 1 {
-            match Self::parse_time_default(datetime_parts[1]) {
-                OwnedValue::Time(t) => t,
-                _ => 0,
-            }
-        } else {
-            0
-        };
-        let epoch_micros = (days as i64) * 86_400_000_000 + time_micros;
-        OwnedValue::Timestamp(epoch_micros)
     }
 
     fn parse_timestamptz_default(s: &str) -> OwnedValue {
